@@ -31,13 +31,15 @@ func (eng) Rule() string {
 		"negotiation handler, a final handler, an Eval body; landing points chosen with the dispose.* gates and handler gates (idle, queue " +
 		"running, mid-negotiation, mid-final, during Eval, during another dispose) with 0-4 concurrent mutators. After WhenDisposed closes: " +
 		"every earlier channel/ctx closed, each dispose handler ran exactly once, no handlerLoop goroutine left (goroutine dump), every " +
-		"later public call returns a neutral value without panicking or blocking; (faultdisp) the same after one handler (AEnter or AState) " +
+		"later public call returns a neutral value without panicking or blocking, and every channel / state context handed to the subscribers " +
+		"racing the disposal is closed; (latesub) a WhenTime/WhenTicks/WhenQuery call parked at sub.checked (after its disposed check) while the " +
+		"machine is disposed completely returns a closed channel; (faultdisp) the same after one handler (AEnter or AState) " +
 		"panicked, overran HandlerTimeout and returned late, or overran and then panicked, disposed while the machine waits for the " +
 		"handler's deadline or after it forked a new loop. Evaluation = one post-dispose assertion; distinct " +
 		"non-trivial = distinct (dispose mode, origin, landing point, handlers, #subscriptions>0)."
 }
 func (eng) Assumptions() []string {
-	return []string{"DisposeForce only on idle machines (documented to panic otherwise)",
+	return []string{"DisposeForce only on idle machines (documented to panic otherwise); what subscribers racing a DisposeForce are handed is not judged (it skips their locks)",
 		"a machine without a handler loop is not disposed by parent-ctx cancelation (no goroutine watches it): that mode is only used with handlers bound",
 		"WhenDisposed still open after the watchdog is a violation only when the goroutine dump shows no doDispose frame (stable), else inconclusive"}
 }
@@ -53,6 +55,9 @@ func (eng) Cases(seed uint64, tier string) []core.CaseDesc {
 	}
 	for i := 0; i < n; i++ {
 		cs = append(cs, core.CaseDesc{ID: fmt.Sprintf("disp/%05d", i), Kind: "disp", Seed: seed*1000003 + uint64(i)})
+	}
+	for i := 0; i < 6; i++ {
+		cs = append(cs, core.CaseDesc{ID: fmt.Sprintf("latesub/%02d", i), Kind: "latesub", Seed: uint64(i)})
 	}
 	nf := 36
 	if tier == "thorough" {
@@ -183,6 +188,81 @@ func runSubsWindow(res *core.CaseResult, c core.CaseDesc) {
 		}
 	}
 	res.Key("subswin", len(subs))
+}
+
+// runLateSub: a WhenTime / WhenTicks / WhenQuery call that has passed its
+// disposed check is parked (sub.checked) while the machine is disposed
+// completely, and goes on afterwards. The channel it returns has to be closed.
+func runLateSub(res *core.CaseResult, c core.CaseDesc) {
+	api := []string{"WhenTime1", "WhenTicks", "WhenQuery"}[c.Seed%3]
+	mode := []string{"dispose", "parentctx"}[(c.Seed/3)%2]
+	parent, cancel := context.WithCancel(context.Background())
+	defer cancel()
+	m := am.New(parent, am.Schema{"A": {}, "B": {}}, &am.Opts{Id: "c13ls", DontLogId: true, DontLogStackTrace: true})
+	m.DisposeTimeout = 100 * time.Millisecond
+	// parent-ctx cancelation is only watched by a machine with a handler loop
+	_, _ = m.HandlersBindMaps(nil, map[string]am.HandlerFinal{"BState": func(*am.Event) {}})
+	m.Add1("B", nil)
+	am.VerifHookClear()
+	defer am.VerifHookClear()
+	gate := make(chan struct{})
+	reached := make(chan struct{})
+	var once sync.Once
+	am.VerifHookSet("sub.checked", func() {
+		once.Do(func() {
+			close(reached)
+			select {
+			case <-gate:
+			case <-time.After(30 * time.Second):
+			}
+		})
+	})
+	got := make(chan (<-chan struct{}), 1)
+	go func() {
+		switch api {
+		case "WhenTime1":
+			got <- m.WhenTime1("A", 1<<40, nil)
+		case "WhenTicks":
+			got <- m.WhenTicks("A", 1<<30, nil)
+		case "WhenQuery":
+			got <- m.WhenQuery(func(am.Clock) bool { return false }, nil)
+		}
+	}()
+	select {
+	case <-reached:
+	case <-time.After(10 * time.Second):
+		res.Inconclusive = "sub.checked not reached"
+		close(gate)
+		m.Dispose()
+		return
+	}
+	if mode == "dispose" {
+		m.Dispose()
+	} else {
+		cancel()
+	}
+	select {
+	case <-m.WhenDisposed():
+	case <-time.After(25 * time.Second):
+		res.Inconclusive = "the disposal did not complete"
+		close(gate)
+		return
+	}
+	close(gate)
+	res.Evals++
+	res.Key("latesub", api, mode)
+	var ch <-chan struct{}
+	select {
+	case ch = <-got:
+	case <-time.After(10 * time.Second):
+		res.Violate("C13/after/blocked/"+api+"/call-in-flight-at-dispose", api+" in flight when the machine was disposed did not return within 10s",
+			map[string]any{"dump": core.StackAll()})
+		return
+	}
+	if !isClosed(ch) {
+		res.Violate("C13/open-after-dispose/call-in-flight-at-dispose/"+api, fmt.Sprintf(
+			"%s had passed its disposed check when the machine was disposed (%s); the channel it returned after WhenDisposed closed is open and nothing will ever close it", api, mode), nil)
+	}
 }
 
 // runFaultDispose: the machine is disposed after one of its handlers faulted
@@ -319,6 +399,10 @@ func (eng) Run(c core.CaseDesc, tier string) *core.CaseResult {
 	}
 	if c.Kind == "faultdisp" {
 		runFaultDispose(res, c)
+		return res
+	}
+	if c.Kind == "latesub" {
+		runLateSub(res, c)
 		return res
 	}
 	r := gen.NewRand(c.Seed, 13)
@@ -537,6 +621,7 @@ func (eng) Run(c core.CaseDesc, tier string) *core.CaseResult {
 	// subscribers: the waiting API is called while the disposal goes on (the
 	// window between the disposing and the disposed flag included)
 	var subPanics []string
+	var during []subRec // what the racing subscribers were handed
 	var subMx sync.Mutex
 	for g := 0; g < 2; g++ {
 		gr := rand.New(rand.NewPCG(c.Seed, uint64(100+g)))
@@ -545,7 +630,9 @@ func (eng) Run(c core.CaseDesc, tier string) *core.CaseResult {
 			defer mwg.Done()
 			for i := 0; i < 3000 && !stop.Load(); i++ {
 				st := names[gr.IntN(len(names))]
-				api := []string{"When", "WhenNot", "WhenArgs", "WhenTime1", "WhenTicks", "NewStateCtx"}[gr.IntN(6)]
+				api := []string{"When", "WhenNot", "WhenArgs", "WhenTime1", "WhenTicks", "NewStateCtx", "WhenQuery", "WhenTime1", "WhenQuery"}[gr.IntN(9)]
+				var gotCh <-chan struct{}
+				var gotCtx context.Context
 				func() {
 					defer func() {
 						if rr := recover(); rr != nil {
@@ -556,19 +643,26 @@ func (eng) Run(c core.CaseDesc, tier string) *core.CaseResult {
 					}()
 					switch api {
 					case "When":
-						_ = m.When(am.S{st}, nil)
+						gotCh = m.When(am.S{st}, nil)
 					case "WhenNot":
-						_ = m.WhenNot(am.S{st}, nil)
+						gotCh = m.WhenNot(am.S{st}, nil)
 					case "WhenArgs":
-						_ = m.WhenArgs(st, am.A{"q": 1}, nil)
+						gotCh = m.WhenArgs(st, am.A{"q": 1}, nil)
 					case "WhenTime1":
-						_ = m.WhenTime1(st, 99, nil)
+						gotCh = m.WhenTime1(st, 1<<40, nil)
 					case "WhenTicks":
-						_ = m.WhenTicks(st, 3, nil)
+						gotCh = m.WhenTicks(st, 1<<30, nil)
+					case "WhenQuery":
+						gotCh = m.WhenQuery(func(am.Clock) bool { return false }, nil)
 					case "NewStateCtx":
-						_ = m.NewStateCtx(st)
+						gotCtx = m.NewStateCtx(st)
 					}
 				}()
+				if gotCh != nil || gotCtx != nil {
+					subMx.Lock()
+					during = append(during, subRec{kind: api, ch: gotCh, ctx: gotCtx})
+					subMx.Unlock()
+				}
 				if i%7 == 0 {
 					runtime.Gosched()
 				}
@@ -718,6 +812,28 @@ func (eng) Run(c core.CaseDesc, tier string) *core.CaseResult {
 		api := strings.SplitN(p, "(", 2)[0]
 		viol("C13/during/panic/"+api, "a subscription call made while the machine was being disposed panicked: "+p)
 		break
+	}
+	// whatever they were handed - before, while or after the disposal - is
+	// closed now
+	res.Count("subscriptions_made_while_disposing_or_around", int64(len(during)))
+	for _, s := range during {
+		if mode == "force" {
+			// DisposeForce closes the subscriptions without taking the locks a
+			// concurrent subscriber holds: outside its contract
+			break
+		}
+		res.Evals++
+		if s.ctx != nil {
+			// (a disposing machine answers with context.TODO(), which has no Done
+			// channel: the neutral answer of a later call, not a state context)
+			if s.ctx.Err() == nil && s.ctx.Done() != nil {
+				viol("C13/alive-after-dispose/subscribed-around-dispose/NewStateCtx", "a state context handed out while the machine was being disposed is alive after WhenDisposed closed")
+				break
+			}
+		} else if s.ch != nil && !isClosed(s.ch) {
+			viol("C13/open-after-dispose/subscribed-around-dispose/"+s.kind, "a "+s.kind+" channel handed out while the machine was being disposed is open after WhenDisposed closed")
+			break
+		}
 	}
 	subMx.Unlock()
 	// 1. earlier waiters
